@@ -51,7 +51,7 @@ def nontrivial(case, out):
     v = re.search(r'\(V\w ([^)]*)\)', case).group(1).split()
     return not all(tok in ('0/1', '1/1', 'true', 'false') for tok in v)
 
-STAGES = [dict(name='value', mode='unit', coq='Check.C20c', cases=cases, nontrivial=nontrivial,
+STAGES = [dict(name='value', mode='unit', coq='Check.C20c', profile=('Proofs.JudgeC20P', '(fun _ => true)', 'C20_judgement_sound / C20_judgement_transfer (no hypothesis on the case)'), cases=cases, nontrivial=nontrivial,
                exhaustive={'thorough': False, 'quick': False},
                rule='every value with components in the grid {-2,-1,-1/2,0,1/2,1,2} (thorough: all 401 values x 7 thresholds; '
                     'quick: 4-point grid plus a sample) and random dyadic values with thresholds on/around the magnitude; values with one tiny non-zero component (2^-30, +-2^-100, 2^-120); '
